@@ -22,10 +22,12 @@ def extract() -> dict[str, Any]:
     except Exception:  # noqa: BLE001
         return out
     # --- AccessControl
-    f = _func(t, "AccessControl", "process_request")
-    if f is not None:
-        out["aclDenyLines"] = sorted({s for s in _strs(f) if s.endswith("\r\n")})
-    init = _func(t, "AccessControl", "__init__")
+    acl = next((n for n in ast.walk(t) if isinstance(n, ast.ClassDef) and n.name == "AccessControl"), None)
+    if acl is not None and _func(t, "AccessControl", "process_request") is not None:
+        # every response line literal of the class (process_request or a private helper it delegates to)
+        out["aclDenyLines"] = sorted({s for s in _strs(acl) if s.endswith("\r\n")})
+    # the network lists are parsed in __init__ or in a private helper of the class it calls: look at the whole class
+    init = acl if acl is not None and _func(t, "AccessControl", "__init__") is not None else None
     if init is not None:
         calls = [n for n in ast.walk(init) if isinstance(n, ast.Call) and getattr(n.func, "id", getattr(n.func, "attr", "")) == "ip_network"]
         # every ip_network call uses the default strict=True (no keyword, one positional argument)
@@ -80,7 +82,15 @@ def extract_chain_order() -> dict[str, Any]:
         t = ast.parse(src.read_text())
     except Exception:  # noqa: BLE001
         return {}
+    def builds_chain(fn):
+        return any(isinstance(c, ast.Call) and isinstance(c.func, ast.Attribute) and c.func.attr in ("append", "insert", "extend")
+                   and isinstance(c.func.value, ast.Name) and c.func.value.id == "middlewares" for c in ast.walk(fn))
+
+    # the function that builds the chain: start_server itself, or the one module-level helper it was moved into
     f = _func(t, None, "start_server")
+    if f is None or not builds_chain(f):
+        cands = [n for n in t.body if isinstance(n, (ast.FunctionDef, ast.AsyncFunctionDef)) and builds_chain(n)]
+        f = cands[0] if len(cands) == 1 else None
     if f is None:
         return {}
     ctor: dict[str, str] = {}
